@@ -1,51 +1,87 @@
 //! `simctl check <Cxx> --tier quick|thorough`: runs the layers / worlds that decide one
 //! property, gates on that property's oracles only, minimises and persists the first
 //! violation as a replay file, honours known_findings.json, writes the evidence file.
+//!
+//! All simulation runs execute in child processes (`simctl worker`): a library bug may
+//! corrupt memory inside a single call before any oracle runs. If a child dies, the parent
+//! finds the run from the per-thread index files, re-executes it alone with a write-ahead
+//! operation log, minimises the logged trace (a dying child counts as "still failing") and
+//! reports it as a C01 violation with a replay file.
 
 use crate::core::*;
 use crate::l1::{self, BatchSpec, Replay};
+use crate::l2;
 use serde::{Deserialize, Serialize};
 use serde_json::json;
 use std::collections::BTreeMap;
 use std::path::{Path, PathBuf};
+use std::process::Command;
 use std::time::Instant;
+
+// ---------------------------------------------------------------- plan
 
 pub struct PlanItem {
     pub layer: &'static str,
-    pub world: &'static str,
+    pub name: &'static str,
     pub quick: u64,
     pub thorough: u64,
     pub over: Vec<(&'static str, i64)>,
 }
 
-fn l1item(world: &'static str, quick: u64, thorough: u64) -> PlanItem {
-    PlanItem { layer: "L1", world, quick, thorough, over: vec![] }
+fn l1(name: &'static str, quick: u64, thorough: u64) -> PlanItem {
+    PlanItem { layer: "L1", name, quick, thorough, over: vec![] }
+}
+fn l1o(name: &'static str, quick: u64, thorough: u64, over: Vec<(&'static str, i64)>) -> PlanItem {
+    PlanItem { layer: "L1", name, quick, thorough, over }
+}
+fn l2(name: &'static str, quick: u64, thorough: u64) -> PlanItem {
+    PlanItem { layer: "L2", name, quick, thorough, over: vec![] }
+}
+fn l2o(name: &'static str, quick: u64, thorough: u64, over: Vec<(&'static str, i64)>) -> PlanItem {
+    PlanItem { layer: "L2", name, quick, thorough, over }
 }
 
 pub fn plan(prop: &str) -> Vec<PlanItem> {
     match prop {
-        "C02" | "C03" => vec![l1item("mutex", 400_000, 12_000_000)],
-        "C04" => vec![PlanItem { layer: "L1", world: "mutex", quick: 300_000, thorough: 8_000_000, over: vec![("fair", 1)] }],
-        "C05" | "C06" => vec![l1item("semaphore", 400_000, 12_000_000)],
-        "C01" | "C17" | "C18" => vec![
-            l1item("mutex", 150_000, 4_000_000),
-            l1item("semaphore", 150_000, 4_000_000),
-            l1item("event", 100_000, 3_000_000),
-            l1item("timer", 150_000, 4_000_000),
-            l1item("mpmc", 200_000, 5_000_000),
-            l1item("oneshot", 100_000, 3_000_000),
-            l1item("state_broadcast", 100_000, 3_000_000),
+        "C01" | "C17" | "C18" => {
+            let mut v = vec![
+                l1("mutex", 150_000, 4_000_000),
+                l1("semaphore", 150_000, 4_000_000),
+                l1("event", 100_000, 3_000_000),
+                l1("timer", 150_000, 4_000_000),
+                l1("mpmc", 200_000, 5_000_000),
+                l1("oneshot", 100_000, 3_000_000),
+                l1("state_broadcast", 100_000, 3_000_000),
+            ];
+            if prop == "C01" {
+                for s in ["S-mutex", "S-sem", "S-chan", "S-chan-shared", "S-event", "S-oneshot", "S-state", "S-timer"] {
+                    v.push(l2o(s, 60_000, 1_500_000, vec![("p_kill", 5), ("max_kills", 2)]));
+                }
+            }
+            v
+        }
+        "C02" | "C03" => vec![l1("mutex", 400_000, 12_000_000), l2("S-mutex", 300_000, 8_000_000)],
+        "C04" => vec![l1o("mutex", 300_000, 8_000_000, vec![("fair", 1)]), l2o("S-mutex", 200_000, 5_000_000, vec![("fair", 1)])],
+        "C05" | "C06" => vec![l1("semaphore", 400_000, 12_000_000), l2("S-sem", 300_000, 8_000_000)],
+        "C07" => vec![l1o("semaphore", 300_000, 8_000_000, vec![("fair", 1)]), l2o("S-sem", 200_000, 5_000_000, vec![("fair", 1)])],
+        "C08" | "C09" | "C10" => vec![l1("mpmc", 400_000, 12_000_000), l2("S-chan", 200_000, 5_000_000), l2("S-chan-shared", 200_000, 5_000_000)],
+        "C11" => vec![
+            l1("mpmc", 250_000, 6_000_000),
+            l1("oneshot", 200_000, 5_000_000),
+            l1("state_broadcast", 200_000, 5_000_000),
+            l2("S-chan-shared", 100_000, 3_000_000),
+            l2("S-oneshot", 100_000, 3_000_000),
+            l2("S-state", 100_000, 3_000_000),
         ],
-        "C11" => vec![l1item("mpmc", 250_000, 6_000_000), l1item("oneshot", 200_000, 5_000_000), l1item("state_broadcast", 200_000, 5_000_000)],
-        "C12" => vec![l1item("oneshot", 400_000, 12_000_000)],
-        "C13" => vec![l1item("state_broadcast", 400_000, 12_000_000)],
-        "C08" | "C09" | "C10" => vec![l1item("mpmc", 400_000, 12_000_000)],
-        "C15" => vec![l1item("timer", 400_000, 12_000_000)],
-        "C14" => vec![l1item("event", 400_000, 12_000_000)],
-        "C07" => vec![PlanItem { layer: "L1", world: "semaphore", quick: 300_000, thorough: 8_000_000, over: vec![("fair", 1)] }],
+        "C12" => vec![l1("oneshot", 400_000, 12_000_000), l2("S-oneshot", 300_000, 8_000_000)],
+        "C13" => vec![l1("state_broadcast", 400_000, 12_000_000), l2("S-state", 300_000, 8_000_000)],
+        "C14" => vec![l1("event", 400_000, 12_000_000), l2("S-event", 300_000, 8_000_000)],
+        "C15" => vec![l1("timer", 400_000, 12_000_000), l2("S-timer", 300_000, 8_000_000)],
         _ => vec![],
     }
 }
+
+// ---------------------------------------------------------------- known findings
 
 #[derive(Clone, Debug, Serialize, Deserialize, Default)]
 pub struct KnownFindings {
@@ -78,21 +114,197 @@ pub fn signature(world: &str, oracle: &str, cfg: &Cfg, op_names: &[String]) -> S
     format!("{}/{}{}/{}", world, oracle, fair, names.join(">"))
 }
 
-pub struct CheckOutcome {
-    pub violations: u32,
-    pub known: u32,
+// ---------------------------------------------------------------- worker protocol
+
+#[derive(Clone, Debug, Serialize, Deserialize)]
+pub struct WorkSpec {
+    pub layer: String,
+    pub name: String,
+    pub seed: u64,
+    pub first_run: u64,
+    pub runs: u64,
+    pub gate: String,
+    pub threads: usize,
+    pub over: Cfg,
+    pub stop_on_first: bool,
+    pub max_found: usize,
+    pub idx_dir: Option<String>,
+    pub oplog: Option<String>,
 }
+
+#[derive(Clone, Debug, Serialize, Deserialize, Default)]
+pub struct FoundOut {
+    pub run_index: u64,
+    pub cfg: Cfg,
+    #[serde(default)]
+    pub ops: Vec<Op>,
+    #[serde(default)]
+    pub tape: Vec<u32>,
+    pub fails: Vec<Fail>,
+}
+
+#[derive(Clone, Debug, Serialize, Deserialize, Default)]
+pub struct WorkOut {
+    pub runs: u64,
+    pub ops: u64,
+    pub faults: BTreeMap<String, u64>,
+    pub probes: BTreeMap<String, u64>,
+    pub nontrivial: u64,
+    pub states: u64,
+    pub transitions: u64,
+    pub found: Vec<FoundOut>,
+    pub notes: BTreeMap<String, u64>,
+    pub samples: Vec<serde_json::Value>,
+    pub log_hash_xor: u64,
+    pub sim_time_ms: u64,
+}
+
+fn stats_maps(s: &Stats) -> (BTreeMap<String, u64>, BTreeMap<String, u64>) {
+    (s.faults.iter().map(|(k, v)| (k.to_string(), *v)).collect(), s.probes.iter().map(|(k, v)| (k.to_string(), *v)).collect())
+}
+
+/// Executed in the child process.
+pub fn run_worker(spec: &WorkSpec) -> Result<WorkOut, String> {
+    match spec.layer.as_str() {
+        "L1" => {
+            let def = l1::world_by_name(&spec.name).ok_or_else(|| format!("unknown world {}", spec.name))?;
+            let bs = BatchSpec {
+                def,
+                seed: spec.seed,
+                first_run: spec.first_run,
+                runs: spec.runs,
+                gate_prop: &spec.gate,
+                threads: spec.threads,
+                cfg_override: spec.over.clone(),
+                collect_states: true,
+                stop_on_first: spec.stop_on_first,
+                max_found: spec.max_found,
+                idx_dir: spec.idx_dir.clone(),
+                oplog: spec.oplog.clone(),
+            };
+            let out = l1::run_batch(&bs);
+            let (faults, probes) = stats_maps(&out.stats);
+            Ok(WorkOut {
+                runs: out.runs,
+                ops: out.stats.ops,
+                faults,
+                probes,
+                nontrivial: out.nontrivial_fps.len() as u64,
+                states: out.states.len() as u64,
+                transitions: out.transitions.len() as u64,
+                found: out.found.into_iter().map(|f| FoundOut { run_index: f.run_index, cfg: f.cfg, ops: f.ops, tape: vec![], fails: f.fails }).collect(),
+                notes: out.notes,
+                samples: out.samples,
+                log_hash_xor: out.log_hash_xor,
+                sim_time_ms: out.sim_time_ms,
+            })
+        }
+        "L2" => {
+            let def = l2::scen_by_name(&spec.name).ok_or_else(|| format!("unknown scenario {}", spec.name))?;
+            if let Some(path) = &spec.oplog {
+                // crash isolation: a single run with a write-ahead choice log
+                let (cfg, rng) = l2::draw_run_cfg(def, spec.seed, spec.first_run, &spec.over);
+                let mut ch = l2::Chooser::generate(rng);
+                ch.log = std::fs::File::create(path).ok();
+                let o = l2::run(def, &cfg, ch);
+                let mut w = WorkOut { runs: 1, ..Default::default() };
+                if o.fails.iter().any(|f| f.prop == spec.gate) {
+                    w.found.push(FoundOut { run_index: spec.first_run, cfg, ops: vec![], tape: o.tape, fails: o.fails });
+                }
+                return Ok(w);
+            }
+            let out = l2::run_batch(def, spec.seed, spec.first_run, spec.runs, &spec.gate, spec.threads, &spec.over, spec.stop_on_first, spec.max_found, spec.idx_dir.as_deref());
+            let (faults, probes) = stats_maps(&out.stats);
+            Ok(WorkOut {
+                runs: out.runs,
+                ops: out.stats.ops,
+                faults,
+                probes,
+                nontrivial: out.nontrivial.len() as u64,
+                states: 0,
+                transitions: 0,
+                found: out.found.into_iter().map(|f| FoundOut { run_index: f.run_index, cfg: f.cfg, ops: vec![], tape: f.tape, fails: f.fails }).collect(),
+                notes: out.notes,
+                samples: out.samples,
+                log_hash_xor: out.log_hash_xor,
+                sim_time_ms: out.sim_time_ms,
+            })
+        }
+        other => Err(format!("unknown layer {}", other)),
+    }
+}
+
+pub fn cmd_worker(spec_json: &str) -> i32 {
+    let spec: WorkSpec = match serde_json::from_str(spec_json) {
+        Ok(s) => s,
+        Err(e) => {
+            eprintln!("harness error: bad worker spec: {}", e);
+            return 2;
+        }
+    };
+    match run_worker(&spec) {
+        Ok(out) => {
+            println!("RESULT {}", serde_json::to_string(&out).unwrap());
+            0
+        }
+        Err(e) => {
+            eprintln!("harness error: {}", e);
+            2
+        }
+    }
+}
+
+pub enum ChildEnd {
+    Ok(WorkOut),
+    Crashed(String),
+    Harness(String),
+}
+
+fn self_exe() -> PathBuf {
+    std::env::current_exe().unwrap_or_else(|_| PathBuf::from("/verif/sim/target/release/simctl"))
+}
+
+pub fn spawn_worker(bin: &Path, spec: &WorkSpec) -> ChildEnd {
+    let out = Command::new(bin).arg("worker").arg(serde_json::to_string(spec).unwrap()).output();
+    match out {
+        Err(e) => ChildEnd::Harness(format!("cannot spawn {}: {}", bin.display(), e)),
+        Ok(o) => {
+            let stdout = String::from_utf8_lossy(&o.stdout);
+            if o.status.success() {
+                match stdout.lines().find_map(|l| l.strip_prefix("RESULT ")) {
+                    Some(j) => match serde_json::from_str::<WorkOut>(j) {
+                        Ok(w) => ChildEnd::Ok(w),
+                        Err(e) => ChildEnd::Harness(format!("worker output does not parse: {}", e)),
+                    },
+                    None => ChildEnd::Harness("worker printed no RESULT line".into()),
+                }
+            } else if o.status.code() == Some(2) {
+                ChildEnd::Harness(String::from_utf8_lossy(&o.stderr).lines().last().unwrap_or("").to_string())
+            } else {
+                use std::os::unix::process::ExitStatusExt;
+                let how = match o.status.signal() {
+                    Some(s) => format!("signal {}", s),
+                    None => format!("exit status {:?}", o.status.code()),
+                };
+                ChildEnd::Crashed(how)
+            }
+        }
+    }
+}
+
+// ---------------------------------------------------------------- replay files
 
 fn write_replay(root: &Path, rep: &Replay) -> PathBuf {
     let dir = root.join("replays");
     let _ = std::fs::create_dir_all(&dir);
-    let name = format!("{}-{}-{}-s{}-r{}-{}.json", rep.property, rep.layer, rep.world, rep.seed, rep.run_index, &rep.event_log_hash[..8]);
+    let h = if rep.event_log_hash.len() >= 8 { &rep.event_log_hash[..8] } else { "crash000" };
+    let name = format!("{}-{}-{}-s{}-r{}-{}.json", rep.property, rep.layer, rep.world, rep.seed, rep.run_index, h);
     let path = dir.join(name);
     std::fs::write(&path, serde_json::to_string_pretty(rep).unwrap()).expect("cannot write replay file");
     path
 }
 
-/// Re-executes a replay file. Returns the failures of the run.
+/// Re-executes a replay file in this process. Returns the failures of the run.
 pub fn run_replay(rep: &Replay) -> Result<(Vec<Fail>, u64), String> {
     match rep.layer.as_str() {
         "L1" => {
@@ -100,49 +312,383 @@ pub fn run_replay(rep: &Replay) -> Result<(Vec<Fail>, u64), String> {
             let mut env = Env::new();
             Ok(l1::execute(def, &rep.config, &rep.ops, &mut env))
         }
+        "L2" => {
+            let def = l2::scen_by_name(&rep.world).ok_or_else(|| format!("unknown scenario {}", rep.world))?;
+            let o = l2::run(def, &rep.config, l2::Chooser::replay(rep.tape.clone()));
+            Ok((o.fails, o.log_hash))
+        }
         other => Err(format!("unknown layer {}", other)),
     }
 }
 
-pub fn cmd_replay(path: &str) -> i32 {
-    let s = match std::fs::read_to_string(path) {
-        Ok(s) => s,
-        Err(e) => {
-            eprintln!("harness error: cannot read {}: {}", path, e);
-            return 2;
-        }
-    };
-    let rep: Replay = match serde_json::from_str(&s) {
+fn load_replay(path: &str) -> Result<Replay, String> {
+    let s = std::fs::read_to_string(path).map_err(|e| format!("cannot read {}: {}", path, e))?;
+    serde_json::from_str(&s).map_err(|e| format!("{} is not a replay file: {}", path, e))
+}
+
+/// child side of `replay`
+pub fn cmd_replay_inproc(path: &str) -> i32 {
+    let rep = match load_replay(path) {
         Ok(r) => r,
         Err(e) => {
-            eprintln!("harness error: {} is not a replay file: {}", path, e);
+            eprintln!("harness error: {}", e);
             return 2;
         }
     };
+    if rep.runner == "range" {
+        // a crash that only shows up after earlier runs on the same thread: re-run the range
+        let spec = WorkSpec {
+            layer: rep.layer.clone(),
+            name: rep.world.clone(),
+            seed: rep.seed,
+            first_run: rep.run_index,
+            runs: rep.minimised_from_ops as u64,
+            gate: rep.property.clone(),
+            threads: 1,
+            over: rep.config.clone(),
+            stop_on_first: true,
+            max_found: 1,
+            idx_dir: None,
+            oplog: None,
+        };
+        return match run_worker(&spec) {
+            Ok(w) => {
+                println!("replay {}: range of {} runs executed, {} violating run(s)", path, w.runs, w.found.len());
+                if w.found.is_empty() {
+                    0
+                } else {
+                    1
+                }
+            }
+            Err(e) => {
+                eprintln!("harness error: {}", e);
+                2
+            }
+        };
+    }
     match run_replay(&rep) {
         Err(e) => {
             eprintln!("harness error: {}", e);
             2
         }
         Ok((fails, hash)) => {
-            println!("replay {}: layer={} world={} ops={} event_log_hash={:016x} (recorded {})", path, rep.layer, rep.world, rep.ops.len(), hash, rep.event_log_hash);
+            println!("replay {}: layer={} world={} ops={} choices={} event_log_hash={:016x} (recorded {})", path, rep.layer, rep.world, rep.ops.len(), rep.tape.len(), hash, rep.event_log_hash);
             for f in &fails {
                 println!("  oracle {}:{} at op {}: {}", f.prop, f.oracle, f.at_op, f.msg);
             }
             if fails.iter().any(|f| f.prop == rep.property) {
-                println!("VIOLATION property={} replay={}", rep.property, path);
                 1
             } else {
-                println!("replay passes: property {} holds on this trace", rep.property);
                 0
             }
         }
     }
 }
 
+/// `simctl replay <file>`: re-executes the file in a fresh child process.
+pub fn cmd_replay(path: &str) -> i32 {
+    let rep = match load_replay(path) {
+        Ok(r) => r,
+        Err(e) => {
+            eprintln!("harness error: {}", e);
+            return 2;
+        }
+    };
+    let o = match Command::new(bin_for_runner(&rep.runner)).arg("replay-inproc").arg(path).output() {
+        Ok(o) => o,
+        Err(e) => {
+            eprintln!("harness error: cannot spawn child: {}", e);
+            return 2;
+        }
+    };
+    print!("{}", String::from_utf8_lossy(&o.stdout));
+    match o.status.code() {
+        Some(0) => {
+            println!("replay passes: property {} holds on this trace", rep.property);
+            0
+        }
+        Some(1) => {
+            println!("VIOLATION property={} replay={}", rep.property, path);
+            1
+        }
+        Some(2) => {
+            eprint!("{}", String::from_utf8_lossy(&o.stderr));
+            2
+        }
+        _ => {
+            use std::os::unix::process::ExitStatusExt;
+            println!("replay {}: the process died ({:?}, signal {:?}) while executing the trace", path, o.status.code(), o.status.signal());
+            println!("VIOLATION property={} replay={}", rep.property, path);
+            1
+        }
+    }
+}
+
+/// child side of minimisation: prints `MINIMISED <replay json>`
+pub fn cmd_minimise_inproc(path: &str) -> i32 {
+    let rep = match load_replay(path) {
+        Ok(r) => r,
+        Err(e) => {
+            eprintln!("harness error: {}", e);
+            return 2;
+        }
+    };
+    let mut out = rep.clone();
+    match rep.layer.as_str() {
+        "L1" => {
+            let def = match l1::world_by_name(&rep.world) {
+                Some(d) => d,
+                None => return 2,
+            };
+            let mut env = Env::new();
+            let (cfg, ops) = l1::minimise(def, &rep.config, &rep.ops, &rep.property, &rep.oracle, &mut env, 2000);
+            let (fails, h1) = l1::execute(def, &cfg, &ops, &mut env);
+            let (_, h2) = l1::execute(def, &cfg, &ops, &mut env);
+            if h1 != h2 {
+                eprintln!("harness error: replay is not deterministic");
+                return 2;
+            }
+            let f = match fails.iter().find(|f| f.prop == rep.property && f.oracle == rep.oracle) {
+                Some(f) => f,
+                None => {
+                    eprintln!("harness error: minimised trace lost the violation");
+                    return 2;
+                }
+            };
+            out.config = cfg;
+            out.ops_readable = l1::render_ops(def, &ops);
+            out.ops = ops;
+            out.message = f.msg.clone();
+            out.event_log_hash = format!("{:016x}", h1);
+        }
+        "L2" => {
+            let def = match l2::scen_by_name(&rep.world) {
+                Some(d) => d,
+                None => return 2,
+            };
+            let tape = l2::minimise(def, &rep.config, &rep.tape, &rep.property, &rep.oracle, 400);
+            let o1 = l2::run(def, &rep.config, l2::Chooser::replay(tape.clone()));
+            let o2 = l2::run(def, &rep.config, l2::Chooser::replay(tape.clone()));
+            if o1.log_hash != o2.log_hash {
+                eprintln!("harness error: replay is not deterministic");
+                return 2;
+            }
+            let f = match o1.fails.iter().find(|f| f.prop == rep.property && f.oracle == rep.oracle) {
+                Some(f) => f,
+                None => {
+                    eprintln!("harness error: minimised tape lost the violation");
+                    return 2;
+                }
+            };
+            out.tape = tape;
+            out.message = f.msg.clone();
+            out.event_log_hash = format!("{:016x}", o1.log_hash);
+        }
+        _ => return 2,
+    }
+    println!("MINIMISED {}", serde_json::to_string(&out).unwrap());
+    0
+}
+
+fn tmp_dir(root: &Path) -> PathBuf {
+    let d = root.join("replays").join("tmp").join(format!("p{}", std::process::id()));
+    let _ = std::fs::create_dir_all(&d);
+    d
+}
+
+/// Minimises in a child process; falls back to the unminimised trace if the child fails.
+fn minimise_via_child(root: &Path, rep: &Replay) -> Result<Replay, String> {
+    let tmp = tmp_dir(root).join("to-minimise.json");
+    std::fs::write(&tmp, serde_json::to_string(rep).unwrap()).map_err(|e| e.to_string())?;
+    let o = Command::new(bin_for_runner(&rep.runner)).arg("minimise-inproc").arg(&tmp).output().map_err(|e| e.to_string())?;
+    if o.status.code() == Some(2) {
+        return Err(String::from_utf8_lossy(&o.stderr).lines().last().unwrap_or("minimiser failed").to_string());
+    }
+    let stdout = String::from_utf8_lossy(&o.stdout);
+    match stdout.lines().find_map(|l| l.strip_prefix("MINIMISED ")) {
+        Some(j) => serde_json::from_str(j).map_err(|e| e.to_string()),
+        None => Ok(rep.clone()), // the minimiser itself died: keep the original trace
+    }
+}
+
+/// does the trace kill the process (or trip a C01 oracle)?
+fn trace_crashes(root: &Path, rep: &Replay) -> bool {
+    let tmp = tmp_dir(root).join("crash-cand.json");
+    if std::fs::write(&tmp, serde_json::to_string(rep).unwrap()).is_err() {
+        return false;
+    }
+    match Command::new(bin_for_runner(&rep.runner)).arg("replay-inproc").arg(&tmp).output() {
+        Ok(o) => !matches!(o.status.code(), Some(0) | Some(2)),
+        Err(_) => false,
+    }
+}
+
+/// A worker died. Find the run, log its trace, minimise it, write the replay.
+fn triage_crash(root: &Path, bin: &Path, spec: &WorkSpec, how: &str, minimise: bool) -> Option<(PathBuf, u64)> {
+    let idx_dir = spec.idx_dir.clone()?;
+    let mut cands: Vec<u64> = Vec::new();
+    if let Ok(rd) = std::fs::read_dir(&idx_dir) {
+        for e in rd.flatten() {
+            if let Ok(b) = std::fs::read(e.path()) {
+                if b.len() >= 8 {
+                    cands.push(u64::from_le_bytes(b[..8].try_into().unwrap()));
+                }
+            }
+        }
+    }
+    cands.sort_unstable();
+    cands.dedup();
+    for r in cands {
+        let oplog = tmp_dir(root).join("oplog.txt");
+        let _ = std::fs::remove_file(&oplog);
+        let single = WorkSpec { first_run: r, runs: 1, threads: 1, idx_dir: None, oplog: Some(oplog.to_string_lossy().to_string()), stop_on_first: true, ..spec.clone() };
+        match spawn_worker(bin, &single) {
+            ChildEnd::Crashed(how2) => {
+                let text = std::fs::read_to_string(&oplog).unwrap_or_default();
+                let mut rep = Replay {
+                    property: "C01".into(),
+                    oracle: "process-crash".into(),
+                    layer: spec.layer.clone(),
+                    world: spec.name.clone(),
+                    seed: spec.seed,
+                    run_index: r,
+                    config: Cfg::new(),
+                    ops: vec![],
+                    ops_readable: vec![],
+                    message: format!("the process died ({}) inside a library call on a contract-respecting history: memory was corrupted before any oracle could run", how2),
+                    event_log_hash: "crash".into(),
+                    minimised_from_ops: 0,
+                    runner: if bin == bin_for("checked").as_path() && bin != self_exe().as_path() { "checked".into() } else { "release".into() },
+                    tape: vec![],
+                };
+                if spec.layer == "L1" {
+                    let def = l1::world_by_name(&spec.name)?;
+                    rep.config = l1::draw_run_cfg(def, spec.seed, r, &spec.over).0;
+                    for line in text.lines() {
+                        let v: Vec<u64> = line.split_whitespace().filter_map(|x| x.parse().ok()).collect();
+                        if v.len() == 4 {
+                            rep.ops.push(Op::new(v[0] as u16, v[1] as u32, v[2] as u32, v[3]));
+                        }
+                    }
+                    rep.minimised_from_ops = rep.ops.len();
+                    // ddmin with child processes; a dying child counts as still failing
+                    let mut budget = if minimise { 150 } else { 0 };
+                    let mut n = 2usize;
+                    while rep.ops.len() >= 2 && budget > 0 {
+                        let chunk = (rep.ops.len() + n - 1) / n;
+                        let mut reduced = false;
+                        let mut start = 0;
+                        while start < rep.ops.len() && budget > 0 {
+                            let end = (start + chunk).min(rep.ops.len());
+                            let mut cand = rep.clone();
+                            cand.ops = [&rep.ops[..start], &rep.ops[end..]].concat();
+                            budget -= 1;
+                            if !cand.ops.is_empty() && trace_crashes(root, &cand) {
+                                rep = cand;
+                                n = (n - 1).max(2);
+                                reduced = true;
+                            } else {
+                                start = end;
+                            }
+                        }
+                        if !reduced {
+                            if chunk <= 1 {
+                                break;
+                            }
+                            n = (n * 2).min(rep.ops.len());
+                        }
+                    }
+                    rep.ops_readable = l1::render_ops(def, &rep.ops);
+                } else {
+                    let def = l2::scen_by_name(&spec.name)?;
+                    rep.config = l2::draw_run_cfg(def, spec.seed, r, &spec.over).0;
+                    rep.tape = text.lines().filter_map(|l| l.trim().parse().ok()).collect();
+                    rep.minimised_from_ops = rep.tape.len();
+                }
+                if !trace_crashes(root, &rep) {
+                    eprintln!("note: crash of run {} ({}) did not reproduce from its logged trace", r, how);
+                    continue;
+                }
+                return Some((write_replay(root, &rep), r));
+            }
+            _ => continue,
+        }
+    }
+    // no single run reproduces the crash on its own: damage done by an earlier run on the
+    // same thread. Fall back to the whole range, single-threaded.
+    let idx2 = tmp_dir(root).join("idx-range");
+    let _ = std::fs::remove_dir_all(&idx2);
+    let _ = std::fs::create_dir_all(&idx2);
+    let seq = WorkSpec { threads: 1, idx_dir: Some(idx2.to_string_lossy().to_string()), oplog: None, ..spec.clone() };
+    if let ChildEnd::Crashed(how2) = spawn_worker(bin, &seq) {
+        let last = std::fs::read(idx2.join("t0")).ok().filter(|b| b.len() >= 8).map(|b| u64::from_le_bytes(b[..8].try_into().unwrap())).unwrap_or(spec.first_run + spec.runs - 1);
+        let rep = Replay {
+            property: "C01".into(),
+            oracle: "process-crash".into(),
+            layer: spec.layer.clone(),
+            world: spec.name.clone(),
+            seed: spec.seed,
+            run_index: spec.first_run,
+            config: spec.over.clone(),
+            ops: vec![],
+            ops_readable: vec![],
+            message: format!("the process died ({}) while executing runs {}..={} of {} {} on one thread; no single run reproduces it alone (memory corrupted by an earlier run)", how2, spec.first_run, last, spec.layer, spec.name),
+            event_log_hash: "crash".into(),
+            minimised_from_ops: (last + 1 - spec.first_run) as usize,
+            runner: "range".into(),
+            tape: vec![],
+        };
+        if trace_crashes(root, &rep) {
+            return Some((write_replay(root, &rep), last));
+        }
+    }
+    None
+}
+
+// ---------------------------------------------------------------- check
+
+/// the binary of the build profile a replay file was recorded with
+fn bin_for_runner(runner: &str) -> PathBuf {
+    if runner == "checked" {
+        bin_for("checked")
+    } else {
+        self_exe()
+    }
+}
+
+fn bin_for(profile: &str) -> PathBuf {
+    let me = self_exe();
+    // .../target/<profile>/simctl
+    let target = me.parent().and_then(|p| p.parent()).map(|p| p.to_path_buf()).unwrap_or_else(|| PathBuf::from("/verif/sim/target"));
+    let cand = target.join(profile).join("simctl");
+    if cand.exists() {
+        cand
+    } else {
+        me
+    }
+}
+
+struct Agg {
+    evaluations: u64,
+    nontrivial: u64,
+    states: u64,
+    transitions: u64,
+    faults: BTreeMap<String, u64>,
+    probes: BTreeMap<String, u64>,
+    notes: BTreeMap<String, u64>,
+    samples: Vec<serde_json::Value>,
+    sim_time_ms: u64,
+    ops: u64,
+    layers: BTreeMap<String, serde_json::Value>,
+}
+
 pub fn cmd_check(root: &Path, prop: &str, tier: &str, seed: u64, threads: usize) -> i32 {
     let t0 = Instant::now();
-    let items = plan(prop);
+    let mut items = plan(prop);
+    if let Ok(only) = std::env::var("SIMCTL_ONLY_LAYER") {
+        // development aid: restrict a check to one layer
+        items.retain(|i| i.layer == only);
+    }
     if items.is_empty() {
         eprintln!("harness error: no check is registered for property {}", prop);
         return 2;
@@ -150,18 +696,21 @@ pub fn cmd_check(root: &Path, prop: &str, tier: &str, seed: u64, threads: usize)
     let known = load_known(root);
     let mut violations = 0u32;
     let mut known_hits = 0u32;
-    let mut evaluations = 0u64;
-    let mut nontrivial = 0u64;
-    let mut states = 0u64;
-    let mut transitions = 0u64;
-    let mut faults: BTreeMap<String, u64> = BTreeMap::new();
-    let mut probes: BTreeMap<String, u64> = BTreeMap::new();
-    let mut layers: BTreeMap<String, serde_json::Value> = BTreeMap::new();
-    let mut samples: Vec<serde_json::Value> = Vec::new();
-    let mut notes: BTreeMap<String, u64> = BTreeMap::new();
-    let mut sim_time_ms = 0u64;
-    let mut total_ops = 0u64;
     let mut reported_sigs: Vec<String> = Vec::new();
+    let mut agg = Agg {
+        evaluations: 0,
+        nontrivial: 0,
+        states: 0,
+        transitions: 0,
+        faults: BTreeMap::new(),
+        probes: BTreeMap::new(),
+        notes: BTreeMap::new(),
+        samples: Vec::new(),
+        sim_time_ms: 0,
+        ops: 0,
+        layers: BTreeMap::new(),
+    };
+    let tmp = tmp_dir(root);
 
     // 1. regression inputs: committed replays of this property must pass
     let regress = root.join("replays").join("regress");
@@ -170,8 +719,7 @@ pub fn cmd_check(root: &Path, prop: &str, tier: &str, seed: u64, threads: usize)
         files.sort();
         let mut n = 0;
         for f in files {
-            let s = std::fs::read_to_string(&f).unwrap_or_default();
-            let rep: Replay = match serde_json::from_str(&s) {
+            let rep = match load_replay(&f.to_string_lossy()) {
                 Ok(r) => r,
                 Err(_) => continue,
             };
@@ -179,152 +727,205 @@ pub fn cmd_check(root: &Path, prop: &str, tier: &str, seed: u64, threads: usize)
                 continue;
             }
             n += 1;
-            match run_replay(&rep) {
-                Ok((fails, _)) => {
-                    if fails.iter().any(|x| x.prop == prop) {
-                        println!("VIOLATION property={} replay={}", prop, f.display());
-                        violations += 1;
-                    }
-                }
-                Err(e) => {
-                    eprintln!("harness error: {}", e);
+            let o = Command::new(bin_for_runner(&rep.runner)).arg("replay-inproc").arg(&f).output();
+            match o.map(|o| o.status.code()) {
+                Ok(Some(0)) => {}
+                Ok(Some(2)) | Err(_) => {
+                    eprintln!("harness error: cannot replay {}", f.display());
                     return 2;
+                }
+                _ => {
+                    println!("violation: regression replay {} fails again: {}", f.display(), rep.message);
+                    println!("VIOLATION property={} replay={}", prop, f.display());
+                    violations += 1;
                 }
             }
         }
-        layers.insert("regression_replays".into(), json!({ "files": n }));
+        agg.layers.insert("regression_replays".into(), json!({ "files": n }));
     }
 
     // 2. seeded search
-    for item in &items {
-        let runs = if tier == "thorough" { item.thorough } else { item.quick };
-        match item.layer {
-            "L1" => {
-                let def = l1::world_by_name(item.world).expect("plan names an unknown world");
-                let mut over = Cfg::new();
-                for (k, v) in &item.over {
-                    over.insert(k.to_string(), *v);
-                }
-                let mut first_run = 0u64;
-                let mut remaining = runs;
-                let mut item_runs = 0u64;
-                // a known finding does not end the search: continue behind it
-                loop {
-                    let spec = BatchSpec {
-                        def,
-                        seed,
-                        first_run,
-                        runs: remaining,
-                        gate_prop: prop,
-                        threads,
-                        cfg_override: over.clone(),
-                        collect_states: true,
-                        stop_on_first: true,
-                        max_found: 64,
-                    };
-                    let out = l1::run_batch(&spec);
-                    evaluations += out.runs;
-                    item_runs += out.runs;
-                    nontrivial += out.nontrivial_fps.len() as u64;
-                    states += out.states.len() as u64;
-                    transitions += out.transitions.len() as u64;
-                    sim_time_ms += out.sim_time_ms;
-                    total_ops += out.stats.ops;
-                    for (k, v) in &out.stats.faults {
-                        *faults.entry(k.to_string()).or_insert(0) += v;
-                    }
-                    for (k, v) in &out.stats.probes {
-                        *probes.entry(k.to_string()).or_insert(0) += v;
-                    }
-                    for (k, v) in &out.notes {
-                        *notes.entry(k.clone()).or_insert(0) += v;
-                    }
-                    if samples.len() < 3 {
-                        samples.extend(out.samples.iter().cloned());
-                    }
-                    if out.found.is_empty() {
-                        break;
-                    }
-                    // triage every violating run of this batch (lowest run index first)
-                    let mut env = Env::new();
-                    let mut new_violation = false;
-                    for f in &out.found {
-                        let first = match f.fails.iter().find(|x| x.prop == prop || x.prop == "HARNESS") {
-                            Some(x) => x.clone(),
-                            None => continue,
-                        };
-                        if first.prop == "HARNESS" {
-                            eprintln!("harness error in world {} run {}: {}", item.world, f.run_index, first.msg);
-                            return 2;
-                        }
-                        let (mcfg, mops) = l1::minimise(def, &f.cfg, &f.ops, &first.prop, &first.oracle, &mut env, 2000);
-                        let (mfails, h1) = l1::execute(def, &mcfg, &mops, &mut env);
-                        let (_, h2) = l1::execute(def, &mcfg, &mops, &mut env);
-                        let mf = match mfails.iter().find(|x| x.prop == first.prop && x.oracle == first.oracle) {
-                            Some(x) => x.clone(),
-                            None => {
-                                eprintln!("harness error: minimised trace lost the violation");
-                                return 2;
-                            }
-                        };
-                        if h1 != h2 {
-                            eprintln!("harness error: replay of run {} is not deterministic", f.run_index);
-                            return 2;
-                        }
-                        let readable = l1::render_ops(def, &mops);
-                        let sig = signature(item.world, &mf.oracle, &mcfg, &readable);
-                        if let Some(k) = known.open.iter().find(|k| k.property == prop && k.signature == sig) {
-                            if !reported_sigs.contains(&sig) {
-                                println!("KNOWN-FINDING: property={} {} [{}]", prop, k.what, sig);
-                                reported_sigs.push(sig.clone());
-                                known_hits += 1;
-                            }
-                            continue;
-                        }
-                        let rep = Replay {
-                            property: prop.to_string(),
-                            oracle: mf.oracle.clone(),
-                            layer: "L1".into(),
-                            world: item.world.to_string(),
-                            seed,
-                            run_index: f.run_index,
-                            config: mcfg.clone(),
-                            ops: mops.clone(),
-                            ops_readable: readable,
-                            message: mf.msg.clone(),
-                            event_log_hash: format!("{:016x}", h1),
-                            minimised_from_ops: f.ops.len(),
-                            runner: "native".into(),
-                        };
-                        let path = write_replay(root, &rep);
-                        println!("violation: {} [{}] signature {}", mf.msg, mf.oracle, sig);
-                        println!("VIOLATION property={} replay={}", prop, path.display());
-                        violations += 1;
-                        new_violation = true;
-                        break;
-                    }
-                    if new_violation {
-                        break;
-                    }
-                    // only known findings in this batch: continue after the last triaged run
-                    let last = out.found.iter().map(|f| f.run_index).max().unwrap();
-                    let done = last + 1 - first_run;
-                    if done >= remaining {
-                        break;
-                    }
-                    remaining -= done;
-                    first_run = last + 1;
-                }
-                layers.insert(format!("L1:{}", item.world), json!({ "runs": item_runs, "config_override": item.over.iter().map(|(k, v)| format!("{}={}", k, v)).collect::<Vec<_>>() }));
-            }
-            _ => {}
-        }
+    'items: for item in &items {
         if violations > 0 {
             break;
         }
+        let total = if tier == "thorough" { item.thorough } else { item.quick };
+        let mut over = Cfg::new();
+        for (k, v) in &item.over {
+            over.insert(k.to_string(), *v);
+        }
+        // C01 additionally runs half of its L1 budget on a build with debug assertions and
+        // overflow checks (the crate's own internal checks become oracles there)
+        let profiles: Vec<(&str, u64, u64)> = if prop == "C01" && item.layer == "L1" && bin_for("checked") != self_exe() {
+            vec![("release", 0, total / 2), ("checked", total / 2, total - total / 2)]
+        } else {
+            vec![("release", 0, total)]
+        };
+        let mut crash_skips = 0u32;
+        let mut item_runs = 0u64;
+        let mut item_nontrivial = 0u64;
+        let mut item_states = 0u64;
+        let mut item_transitions = 0u64;
+        for (profile, offset, budget) in profiles {
+            let bin = bin_for(profile);
+            let mut first_run = offset;
+            let mut remaining = budget;
+            while remaining > 0 {
+                let idx_dir = tmp.join("idx");
+                let _ = std::fs::remove_dir_all(&idx_dir);
+                let _ = std::fs::create_dir_all(&idx_dir);
+                let spec = WorkSpec {
+                    layer: item.layer.to_string(),
+                    name: item.name.to_string(),
+                    seed,
+                    first_run,
+                    runs: remaining,
+                    gate: prop.to_string(),
+                    threads,
+                    over: over.clone(),
+                    stop_on_first: true,
+                    max_found: 64,
+                    idx_dir: Some(idx_dir.to_string_lossy().to_string()),
+                    oplog: None,
+                };
+                let out = match spawn_worker(&bin, &spec) {
+                    ChildEnd::Ok(o) => o,
+                    ChildEnd::Harness(e) => {
+                        eprintln!("harness error: {}", e);
+                        return 2;
+                    }
+                    ChildEnd::Crashed(how) => {
+                        println!("note: a simulation worker died ({}) in {} {}", how, item.layer, item.name);
+                        crash_skips += 1;
+                        if prop != "C01" && crash_skips > 3 {
+                            println!("note: more than 3 crashing runs in {} {}: the rest of this item is skipped (crashes are a C01 matter)", item.layer, item.name);
+                            break;
+                        }
+                        match triage_crash(root, &bin, &spec, &how, prop == "C01") {
+                            Some((path, run)) => {
+                                if prop == "C01" {
+                                    println!("violation: the process died inside a library call (memory corruption) in {} {} run {}", item.layer, item.name, run);
+                                    println!("VIOLATION property=C01 replay={}", path.display());
+                                    violations += 1;
+                                    break 'items;
+                                }
+                                println!("note: run {} of {} {} crashes the process; that is a C01 matter (replay {}), skipped here", run, item.layer, item.name, path.display());
+                                *agg.notes.entry("C01:process-crash".into()).or_insert(0) += 1;
+                                let done = run + 1 - first_run;
+                                if done >= remaining {
+                                    break;
+                                }
+                                remaining -= done;
+                                first_run = run + 1;
+                                continue;
+                            }
+                            None => {
+                                eprintln!("harness error: a worker died ({}) and the crash could not be isolated", how);
+                                return 2;
+                            }
+                        }
+                    }
+                };
+                agg.evaluations += out.runs;
+                item_runs += out.runs;
+                item_nontrivial = item_nontrivial.max(out.nontrivial);
+                item_states = item_states.max(out.states);
+                item_transitions = item_transitions.max(out.transitions);
+                agg.sim_time_ms += out.sim_time_ms;
+                agg.ops += out.ops;
+                for (k, v) in &out.faults {
+                    *agg.faults.entry(k.clone()).or_insert(0) += v;
+                }
+                for (k, v) in &out.probes {
+                    *agg.probes.entry(k.clone()).or_insert(0) += v;
+                }
+                for (k, v) in &out.notes {
+                    *agg.notes.entry(k.clone()).or_insert(0) += v;
+                }
+                if agg.samples.len() < 4 {
+                    agg.samples.extend(out.samples.iter().take(1).cloned());
+                }
+                if out.found.is_empty() {
+                    break;
+                }
+                // triage every violating run of this batch (lowest run index first)
+                let mut new_violation = false;
+                for f in &out.found {
+                    let first = match f.fails.iter().find(|x| x.prop == prop || x.prop == "HARNESS") {
+                        Some(x) => x.clone(),
+                        None => continue,
+                    };
+                    if first.prop == "HARNESS" {
+                        eprintln!("harness error in {} {} run {}: {}", item.layer, item.name, f.run_index, first.msg);
+                        return 2;
+                    }
+                    let raw = Replay {
+                        property: prop.to_string(),
+                        oracle: first.oracle.clone(),
+                        layer: item.layer.to_string(),
+                        world: item.name.to_string(),
+                        seed,
+                        run_index: f.run_index,
+                        config: f.cfg.clone(),
+                        ops: f.ops.clone(),
+                        ops_readable: vec![],
+                        message: first.msg.clone(),
+                        event_log_hash: String::new(),
+                        minimised_from_ops: f.ops.len().max(f.tape.len()),
+                        runner: profile.to_string(),
+                        tape: f.tape.clone(),
+                    };
+                    let rep = match minimise_via_child(root, &raw) {
+                        Ok(r) => r,
+                        Err(e) => {
+                            eprintln!("harness error: {}", e);
+                            return 2;
+                        }
+                    };
+                    let sig = if item.layer == "L1" { signature(item.name, &rep.oracle, &rep.config, &rep.ops_readable) } else { format!("{}/{}", item.name, rep.oracle) };
+                    if let Some(k) = known.open.iter().find(|k| k.property == prop && k.signature == sig) {
+                        if !reported_sigs.contains(&sig) {
+                            println!("KNOWN-FINDING: property={} {} [{}]", prop, k.what, sig);
+                            reported_sigs.push(sig.clone());
+                            known_hits += 1;
+                        }
+                        continue;
+                    }
+                    let path = write_replay(root, &rep);
+                    println!("violation: {} [{}] signature {}", rep.message, rep.oracle, sig);
+                    println!("VIOLATION property={} replay={}", prop, path.display());
+                    violations += 1;
+                    new_violation = true;
+                    break;
+                }
+                if new_violation {
+                    break;
+                }
+                // only known findings in this batch: continue after the last triaged run
+                let last = out.found.iter().map(|f| f.run_index).max().unwrap();
+                let done = last + 1 - first_run;
+                if done >= remaining {
+                    break;
+                }
+                remaining -= done;
+                first_run = last + 1;
+            }
+            if violations > 0 {
+                break;
+            }
+        }
+        agg.nontrivial += item_nontrivial;
+        agg.states += item_states;
+        agg.transitions += item_transitions;
+        agg.layers.insert(
+            format!("{}:{}", item.layer, item.name),
+            json!({ "runs": item_runs, "distinct_nontrivial": item_nontrivial, "distinct_states": item_states, "distinct_transitions": item_transitions,
+                    "config_override": item.over.iter().map(|(k, v)| format!("{}={}", k, v)).collect::<Vec<_>>() }),
+        );
     }
+    let _ = std::fs::remove_dir_all(&tmp);
 
-    for (k, v) in &notes {
+    for (k, v) in &agg.notes {
         println!("note: {} run(s) tripped oracle {} (not gating here; see that property's check)", v, k);
     }
 
@@ -335,27 +936,27 @@ pub fn cmd_check(root: &Path, prop: &str, tier: &str, seed: u64, threads: usize)
         "seed": seed,
         "level": "exploration",
         "coverage": {
-            "evaluations": evaluations,
-            "distinct_nontrivial": nontrivial,
-            "rule": "runs are drawn swarm-style from VERIF_SEED (one xoshiro stream per run index); a run is non-trivial if at least one poll returned Pending and at least one fault kind fired; distinct = distinct hash of the run's operation-kind sequence among non-trivial runs (per world, summed over worlds)",
-            "samples": samples,
-            "states": states,
-            "transitions": transitions,
-            "runs_per_hour": if wall > 0.0 { (evaluations as f64 / wall * 3600.0) as u64 } else { 0 },
-            "operations_executed": total_ops,
-            "sim_time_ms_covered": sim_time_ms,
-            "fault_fired": faults,
-            "probes": probes,
-            "layers": layers,
-            "other_oracle_notes": notes,
+            "evaluations": agg.evaluations,
+            "distinct_nontrivial": agg.nontrivial,
+            "rule": "runs are drawn swarm-style from VERIF_SEED (one xoshiro stream per run index, per world/scenario); a run is non-trivial if at least one poll returned Pending and at least one fault kind fired; distinct = distinct hash of the run's operation-kind sequence (L1) / executor decision sequence (L2) among non-trivial runs, counted per world or scenario (maximum over its worker batches) and summed over worlds",
+            "samples": agg.samples,
+            "states": agg.states,
+            "transitions": agg.transitions,
+            "runs_per_hour": if wall > 0.0 { (agg.evaluations as f64 / wall * 3600.0) as u64 } else { 0 },
+            "operations_executed": agg.ops,
+            "sim_time_ms_covered": agg.sim_time_ms,
+            "fault_fired": agg.faults,
+            "probes": agg.probes,
+            "layers": agg.layers,
+            "other_oracle_notes": agg.notes,
             "components": {
-                "real": ["futures-intrusive (all primitives, local / parking_lot / shared flavours)", "futures-core", "lock_api", "parking_lot"],
-                "stub": ["executor (simulator decides every poll, drop, wake consumption)", "wakers (simulator-owned, logging)", "clock (SimClock behind the crate's Clock trait)"]
+                "real": ["futures-intrusive (all primitives; local, parking_lot and shared flavours; the crate's TimerService is the L2 timer wheel)", "futures-core", "lock_api", "parking_lot"],
+                "stub": ["executor (simulator decides every poll, drop, kill, wake delivery)", "wakers (simulator-owned, logging)", "clock (SimClock behind the crate's Clock trait; MockClock in some configurations)"]
             },
             "known_findings_hit": known_hits,
         },
         "assumptions": [
-            "sampling, not enumeration: bounded histories (<= 96 ops, <= 6 live futures), sequentially consistent execution",
+            "sampling, not enumeration: bounded histories (<= 96 ops, <= 6 live futures per kind; L2: <= 6 tasks), sequentially consistent execution",
             "guarded hooks (cfg futures_intrusive_verif) are read-only",
         ],
         "wall_s": wall,
@@ -367,7 +968,7 @@ pub fn cmd_check(root: &Path, prop: &str, tier: &str, seed: u64, threads: usize)
         eprintln!("harness error: cannot write evidence: {}", e);
         return 2;
     }
-    println!("check {} tier={} seed={} evaluations={} distinct_nontrivial={} states={} wall={:.1}s violations={} known={}", prop, tier, seed, evaluations, nontrivial, states, wall, violations, known_hits);
+    println!("check {} tier={} seed={} evaluations={} distinct_nontrivial={} states={} wall={:.1}s violations={} known={}", prop, tier, seed, agg.evaluations, agg.nontrivial, agg.states, wall, violations, known_hits);
     if violations > 0 {
         1
     } else {
